@@ -1,5 +1,5 @@
 /*VERIF
-{ "tu": "src/apply.c", "enforce": "dispatch_apply_f", "props": ["C10", "C04"], "seq": true, "timeout": 300,
+{ "tu": "src/apply.c", "enforce": "dispatch_apply_f", "props": ["C10", "C04", "C18"], "seq": true, "timeout": 300,
   "assumes": ["_dispatch_qos_max_parallelism returns a count >= 1 (number of active CPUs; kernel)",
               "DISPATCH_APPLY_AUTO is resolved by a stub (root-queue lookup: C18 contract of the global queue table)"],
   "stub_note": "dispatch_sync_f (own contracts: C02/C05 sync path), _dispatch_apply_f (helper submission), _dispatch_thread_context_find, _dispatch_queue_get_current, _dispatch_continuation_alloc, _dispatch_qos_max_parallelism: logging / ghost stubs" }
@@ -8,7 +8,7 @@ VERIF*/
 #else
 #define DQ_STUB_TARGET 1
 #include "contracts/common/dq_common.h"
-enum { K_SYNC = 130, K_APPLY_F };
+enum { K_SYNC = 130, K_APPLY_F, K_DIRECT };
 struct dispatch_apply_s H_da; struct dispatch_thread_context_s H_dtc; _Bool H_nested_ctx; size_t H_nest0; _Bool H_on_dq; uint32_t H_par;
 dispatch_function_t H_sync_func; dispatch_function_t H_applyf_func; struct dispatch_queue_s H_outer;
 void dispatch_sync_f(dispatch_queue_t dq, void *ctxt, dispatch_function_t func) { H_sync_func = func; __verif_event(K_SYNC, 0, dq, (unsigned long long)(uintptr_t)ctxt, 0); }
@@ -17,6 +17,11 @@ static inline dispatch_thread_context_t _dispatch_thread_context_find(const void
 static inline dispatch_queue_t _dispatch_queue_get_current(void) { return H_on_dq ? (dispatch_queue_t)H_DQ : &H_outer; }
 static inline dispatch_continuation_t _dispatch_continuation_alloc(void) { return (dispatch_continuation_t)&H_da; }
 uint32_t _dispatch_qos_max_parallelism(dispatch_qos_t qos, unsigned long flags) { (void)qos; (void)flags; return H_par; }
+/* the three ways of running the iterations are only ever handed on as function pointers (own contracts: h_apply_serial, h_apply_redirect,
+ * h_apply_invoke2); a direct call from dispatch_apply_f would run the iterations without the frame dispatch_sync_f / the helper push sets up */
+void _dispatch_apply_serial(void *ctxt) { __verif_event(K_DIRECT, 0, ctxt, 1, 0); }
+static void _dispatch_apply_redirect(void *ctxt) { __verif_event(K_DIRECT, 0, ctxt, 2, 0); }
+void _dispatch_apply_invoke(void *ctxt) { __verif_event(K_DIRECT, 0, ctxt, 3, 0); }
 static void h_work(void *c, size_t i) { (void)c; (void)i; }
 size_t H_iter; _Bool H_is_root;
 #define NESTED0 (H_nested_ctx ? H_nest0 : 0)
@@ -34,6 +39,8 @@ VERIF_CONTRACT_VOID(dispatch_apply_f, (size_t iterations, dispatch_queue_t _dq, 
   ENS(descriptor_covers_exactly_the_requested_iterations, VIMPL(H_iter != 0, H_da.da_iterations == H_iter && H_da.da_todo == H_iter && H_da.da_index == 0 && H_da.da_thr_cnt == THR && H_da.da_thr_cnt >= 1 && (size_t)H_da.da_thr_cnt <= H_iter))
   /* serial queue, one worker, or re-entrant call on the queue we are running on: run inline through dispatch_sync (no helper could ever get width) */
   ENS(serial_or_reentrant_apply_runs_the_iterations_inline, VIMPL(H_iter != 0 && SERIAL, LOGK(0) == K_SYNC && H_sync_func == _dispatch_apply_serial))
+  /* C18: the iterations see the queue they were submitted to as current because they are entered through dispatch_sync_f (or the helper push), never called directly */
+  ENS(iterations_are_never_run_by_a_direct_call_that_skips_the_queue_frame, VIMPL(H_iter != 0, LOGK(0) != K_DIRECT))
   ENS(apply_on_a_custom_concurrent_queue_goes_through_the_width_reservation, VIMPL(H_iter != 0 && !SERIAL && !H_is_root, LOGK(0) == K_SYNC && H_sync_func == _dispatch_apply_redirect))
   ENS(apply_on_a_root_queue_pushes_helpers_with_the_queue_as_current, VIMPL(H_iter != 0 && !SERIAL && H_is_root, LOGK(0) == K_APPLY_F && H_applyf_func == _dispatch_apply_invoke && LOGB(0) == (unsigned long long)(uintptr_t)H_DQ))
 )
